@@ -369,7 +369,7 @@ class Session(object):
         try:
             lean = {"ode": [E.ev(e, env) for e in lr["ode"]], "vMat": [[E.ev(e, env) for e in col] for col in lr["vmat_cols"]],
                     "eventRateVector": [E.ev(e, env) for e in lr["rates"]], "pureOdeVector": [E.ev(e, env) for e in lr["pure"]]}
-            f_o, V_o, a_o, p_o = net_oracle(meta, spec, env)
+            (f_o, V_o, a_o, p_o), bounds = net_oracle_bounds(meta, spec, env)
             if not self.steps:
                 # the two references of the harness (abstract process set / API-level spec) must agree
                 f_s = spec_oracle(spec, states, env)[0] if all(o["op"] in pymodel.SETTER for o in spec.get("then", [])) else f_o
@@ -380,7 +380,7 @@ class Session(object):
             return True
         if any(abs(v) > 1e-12 for v in lean["ode"]):
             self.nonzero = True
-        st = {"label": label, "pt": pt, "vals": vals, "lean": lean, "oracle": (f_o, V_o, a_o, p_o), "first_row": len(self.kept.rows) - 4}
+        st = {"label": label, "pt": pt, "vals": vals, "lean": lean, "oracle": (f_o, V_o, a_o, p_o), "bounds": bounds, "first_row": len(self.kept.rows) - 4}
         self.steps.append(st)
         self.judge(st, vals, "")
         return len(mism) + len(viol) == n0
@@ -430,16 +430,7 @@ class Session(object):
             self.viol.append({"what": pre + "pureOdeVector(x,t) != explicit terms", "signature": sg("pure"),
                               "detail": "pure=%s expected=%s at %s" % (list(p_n), [mpf_s(v) for v in p_o], pt)})
         # (rate, column) pairs as a multiset: greedy matching with the per-entry bounds of the expected pair
-        used = [False] * nE
-        okp = nE == len(a_o)
-        for j in range(len(a_o) if okp else 0):
-            for k in range(nE):
-                if not used[k] and scaled_close([a_n[k]], [a_o[j]], [Ba[j]]) and scaled_close(V_n[:, k], V_o[j], BV[j]):
-                    used[k] = True
-                    break
-            else:
-                okp = False
-                break
+        okp = pairs_close(a_n, [V_n[:, k] for k in range(nE)], a_o, V_o, Ba, BV)
         if not okp:
             self.viol.append({"what": pre + "(eventRateVector, vMat column) pairs != declared (rate, magnitudes)", "signature": sg("rates+vmat"),
                               "detail": "rates=%s vMat=%s expected rates=%s columns=%s at %s" % (list(a_n), V_n.tolist(), [mpf_s(v) for v in a_o],
@@ -503,22 +494,25 @@ class Session(object):
             if not vec_close(p_n, lean["pureOdeVector"]): mism.append({"what": "pureOdeVector(x,t)", "detail": "python %s lean %s" % (list(p_n), [mpf_s(v) for v in lean["pureOdeVector"]])})
             if not all(vec_close(c1, c2) for c1, c2 in zip(Vn_cols, lean["vMat"])):
                 mism.append({"what": "vMat(x,t)", "detail": "python %s lean %s" % (Vn_cols, [[mpf_s(v) for v in c] for c in lean["vMat"]])})
-        # direct oracle, no Lean: the property itself
-        if not vec_close(f_n, f_o):
+        # direct oracle, no Lean: the property itself.  Every entry is judged RELATIVELY against the cancellation-aware bound of
+        # the oracle's own terms (common.net_oracle_bounds): no absolute floor, so an entry of size 1e-9 (or a rate
+        # a*exp(-b*X) of size 1e-40) is held to 9 digits like any other
+        Bf, BV, Ba, Bp = st["bounds"]
+        if not scaled_close(f_n, f_o, Bf):
             viol.append({"what": pre + "ode(x,t) != sum rate*net + explicit terms", "signature": sg(sig(meta, "ode")),
                          "detail": "ode=%s expected=%s at %s" % (list(f_n), [mpf_s(v) for v in f_o], pt)})
-        if not vec_close(p_n, p_o):
+        if not scaled_close(p_n, p_o, Bp):
             viol.append({"what": pre + "pureOdeVector(x,t) != explicit terms", "signature": sg(sig(meta, "pure")),
                          "detail": "pure=%s expected=%s at %s" % (list(p_n), [mpf_s(v) for v in p_o], pt)})
         # event order depends on the route (constructor keywords are processed event, transition, birth_death,
         # then add_* calls), so rates and columns are compared as a multiset of (rate, column) pairs
         got = sorted([[float(a_n[j])] + [float(v) for v in Vn_cols[j]] for j in range(nE)])
         exp = sorted([[float(a_o[j])] + [float(v) for v in V_o[j]] for j in range(len(a_o))])
-        if not multiset_close(got, exp):
+        if not pairs_close(a_n, Vn_cols, a_o, V_o, Ba, BV):
             viol.append({"what": pre + "(eventRateVector, vMat column) pairs != declared (rate, magnitudes)", "signature": sg(sig(meta, "rates+vmat")),
                          "detail": "got=%s expected=%s at %s" % (got, exp, pt)})
         recon = V_n.dot(a_n) + p_n if nE > 0 else p_n
-        if not vec_close(f_n, recon, rel=1e-8, abs_=1e-9):
+        if not scaled_close(f_n, [mpf(float(v)) for v in recon], Bf, rel=1e-8):
             viol.append({"what": pre + "ode != vMat . eventRateVector + pureOdeVector", "signature": sg(sig(meta, "recon")),
                          "detail": "ode=%s V.a+p=%s at %s" % (list(f_n), list(recon), pt)})
 
@@ -645,6 +639,23 @@ def run_case(case):
         if B.viol or B.mism:
             r["sample"] = {"first": spec, "second": B.spec}
     return r
+
+
+def pairs_close(a_n, V_cols_n, a_o, V_o, Ba, BV):
+    """the (rate, state-change column) pairs of the real model equal the declared ones as a multiset; greedy matching, every
+    entry relative to the bound of the expected entry (no absolute floor)"""
+    n = len(a_o)
+    if len(a_n) != n:
+        return False
+    used = [False] * n
+    for j in range(n):
+        for k in range(n):
+            if not used[k] and scaled_close([a_n[k]], [a_o[j]], [Ba[j]]) and scaled_close(V_cols_n[k], V_o[j], BV[j]):
+                used[k] = True
+                break
+        else:
+            return False
+    return True
 
 
 def sig(meta, what):
